@@ -37,7 +37,8 @@ CHECKS = {
 EXTRA = {}
 for f in sorted(os.listdir(ROOT)):
     if f.startswith("manifest_entries_") and f.endswith(".json"):
-        for e in json.load(open(os.path.join(ROOT, f))):
+        d = json.load(open(os.path.join(ROOT, f)))
+        for e in (d["checks"] if isinstance(d, dict) else d):
             EXTRA[e["property_id"]] = e
 
 checks = []
